@@ -37,7 +37,7 @@ def rewrite(rng, f):
     return And(f, f)
 
 
-def build_instances(rng, case, per_base=10):
+def build_instances(rng, case, per_base=10, part=None):
     """queries + postulate instances (kind, premise indices, conclusion index / flag)."""
     n = case["n"]
     qs = []
@@ -50,6 +50,7 @@ def build_instances(rng, case, per_base=10):
     for (k, b, a) in case["base"]:
         inst.append(("DI", [], q(b, a)))
     pool = [x[1] for x in case["base"]] + [x[2] for x in case["base"]]
+    deep = ops.world_queries(rng, case, part, 6) if part else []   # (B|A) decided below the top layer
     for _ in range(per_base):
         def pick():
             r = rng.random()
@@ -59,6 +60,10 @@ def build_instances(rng, case, per_base=10):
                 return gen_lit(rng, n)
             return gen_formula(rng, n, 1, 0.03)
         A, B, C = pick(), pick(), pick()
+        if deep and rng.random() < 0.5:
+            B, A = rng.choice(deep)
+            if rng.random() < 0.5:
+                C = Not(B) if rng.random() < 0.5 else rng.choice(deep)[0]
         inst.append(("REF", [], q(A, A)))
         inst.append(("SCL", [], q(Or(A, B), A)))
         iAB, iAC = q(B, A), q(C, A)
@@ -112,7 +117,7 @@ def run(tier, seed, broken_proof=False):
         bases = [c for c in cand if m0[c["id"]]["part"] is not None and c["base"]][:count]
         cases, insts = [], {}
         for c in bases:
-            qs, inst = build_instances(rng, c, per_base=6 if tier == "quick" else 10)
+            qs, inst = build_instances(rng, c, per_base=6 if tier == "quick" else 10, part=m0[c["id"]]["part"])
             cc = make_case(c["id"], c["n"], c["base"], qs, weakly)
             cases.append(cc)
             insts[cc["id"]] = inst
